@@ -286,6 +286,8 @@ type netSim struct {
 	healAt             time.Duration           // when it began
 	healHeights        []uint32                // validators' heights at that moment
 	healedIn           time.Duration           // how long it took every validator to gain two blocks (0: not yet)
+	// poolFn, when set, is how a client transaction enters a node (server mode: Server.RelayTxn); default Blockchain.PoolTx
+	poolFn func(*vnode, *transaction.Transaction) error
 }
 
 func (s *netSim) now() time.Duration { return time.Since(s.start) }
@@ -490,6 +492,11 @@ func (s *netSim) deliver(to int, kind string, raw []byte) {
 		return
 	}
 	if derr != nil {
+		if strings.HasPrefix(kind, "p2p/") && !strings.HasSuffix(kind, "*") {
+			// built by the real encoder from a real value and delivered unaltered
+			s.r.violate(sim.Violatef("c17-honest-message-undecodable", "c17-honest-message-undecodable/"+kind, "a %s message of %d bytes produced by Message.BytesCompressed and delivered unaltered does not decode: %v", kind, len(raw), derr))
+			return
+		}
 		s.r.out.Probes["wire_decode_rejected"]++
 		return
 	}
@@ -563,7 +570,11 @@ func (s *netSim) submitTx(v *vnode, tx *transaction.Transaction) {
 			}
 		}
 	}
-	if pv := sim.Recover(func() { err = v.n.BC.PoolTx(tx) }); pv != nil {
+	pool := func() { err = v.n.BC.PoolTx(tx) }
+	if s.poolFn != nil {
+		pool = func() { err = s.poolFn(v, tx) }
+	}
+	if pv := sim.Recover(pool); pv != nil {
 		s.r.violate(pv)
 		return
 	}
